@@ -26,6 +26,14 @@ the items edited by `edit_decl`) through one `API` object in every order of `HIS
 configure/parse of all before any generate, per-target interleaving, back to the first project after an edit, three
 projects); afterwards the tree of *every* project is read from disk and each declaration is judged by `c08.spec`
 against the declaration of its own project (keys `history:…`).
+Target-order stream: all targets of one run are generated from ONE parse (one shared AST), so the constants of a target
+must not depend on which targets were generated before it from the same parse. The orders `TARGET_ORDERS` (every
+target first once, reversed, C++ in the middle, a target generated twice) are run as one-project histories over
+`deprecation_decls` (enums / flags with every pattern of `@deprecated` items, i.e. deprecated items *before* ordinary
+ones) with the generators' optional per-declaration outputs switched on (`cpp.string_serialization`: the C++ source
+file with `to_string` is rendered); the constants of all targets are then evaluated together against the declaration
+in IDL order (keys `history:…`, order names `targets:…`). Half of the projects of the other histories also render the
+serialization source.
 Judges (validation of the extraction and of `EnumEval`, never the verdict): a model-derived `static_assert`
 translation unit compiled with g++ against the generated C++ headers (constants + the bit operators) and the
 transplanted C++/CLI enum bodies, random enumerator lists with references for `EnumEval` itself, the ObjC headers with
@@ -158,6 +166,22 @@ def hazard_decls(start: int):
         out.append({"name": f"h{i}_{'fl' if kind == 'flags' else 'en'}", "kind": kind, "items": items,
                     "comment": doc if k % 2 == 0 else None, "dep": None})
         i += 1
+    return out
+
+
+def deprecation_decls(prefix: str = "d"):
+    """enums with 2..4 items and flags (several none/all shapes) with *every* pattern of `@deprecated` items
+    (seed-independent): a deprecated item before an ordinary one, after it, between two, all, none"""
+    out = []
+    msgs = ["", "use the other one", "old"]
+    for kind, shapes in (("enum", ["oo", "ooo", "oooo"]), ("flags", ["ooo", "onoa", "aoon"])):
+        for shape in shapes:
+            for mask in itertools.product((False, True), repeat=len(shape)):
+                k = len(out)
+                items = [{"name": WORDS[(k + 3 * j) % len(WORDS)], "all": c == "a", "none": c == "n", "comment": "doc" if (k + j) % 5 == 0 else None,
+                          "dep": msgs[(k + j) % len(msgs)] if dep else None} for j, (c, dep) in enumerate(zip(shape, mask))]
+                out.append({"name": f"{prefix}{k}_{'fl' if kind == 'flags' else 'en'}", "kind": kind, "items": items, "comment": None,
+                            "dep": "old type" if k % 11 == 10 else None})
     return out
 
 
@@ -470,8 +494,28 @@ def decl_infos(gctx, errors):
                              "objc": [str(i.objc.name) for i in items], "cppcli": [str(i.cppcli.name) for i in items]}
             info["type_names"] = {"cpp": str(d.cpp.name), "java": str(d.java.name), "objc": str(d.objc.name),
                                   "cppcli": str(d.cppcli.name), "jni": str(d.jni.name), "cpp_typename": str(d.cpp.typename)}
+            info["idl_items"] = [str(i.name) for i in items]
         decls.append(info)
     return decls
+
+
+def idl_item_order(gctx) -> dict:
+    """{declaration: [item names]} as the parser delivered them (read right after `parse`, before any generator ran)"""
+    from pydjinni.parser.ast import Enum, Flags
+    return {str(d.name): [str(i.name) for i in (d.items if isinstance(d, Enum) else d.flags)] for d in gctx.defs if isinstance(d, (Enum, Flags))}
+
+
+def names_in_idl_order(infos, order0):
+    """The converted constant names are read from the marshalling objects after the generators ran; they are aligned with
+    the item order the *parser* delivered (should a generator have reordered the shared item list, the names still belong
+    to the IDL positions and the reordering shows in the generated constants, not in the expectation)."""
+    for info in infos:
+        cur, want = info.get("idl_items"), order0.get(info["name"])
+        if cur and want and cur != want and sorted(cur) == sorted(want) and len(set(cur)) == len(cur):
+            perm = [cur.index(n) for n in want]
+            info["names"] = {t: [v[k] for k in perm] for t, v in info["names"].items()}
+            info["ast_items_reordered"] = {"after_parse": want, "after_generate": cur}
+    return infos
 
 
 HISTORY_ORDERS = {
@@ -490,6 +534,24 @@ HISTORY_ORDERS = {
 }
 
 
+def _target_orders():
+    ts = list(glue.TARGETS)
+    orders = {}
+    for k, t in enumerate(ts):                      # every target is the first one once
+        orders[f"targets:{t}-first"] = ts[k:] + ts[:k]
+    orders["targets:reversed"] = ts[::-1]
+    orders["targets:cpp-in-the-middle"] = [ts[1], ts[0]] + ts[2:] if len(ts) > 2 else ts
+    orders["targets:cpp-last"] = ts[1:] + ts[:1]
+    orders["targets:twice"] = [ts[0], ts[1], ts[0]] + ts[2:] + [ts[1]]
+    return orders
+
+
+# orders in which the targets of ONE parse are generated (one project, one `generate` call per target)
+TARGET_ORDERS = _target_orders()
+for _name, _ts in TARGET_ORDERS.items():
+    HISTORY_ORDERS[_name] = [["configure", "A"], ["parse", "A"]] + [["generate", "A", [t]] for t in _ts]
+
+
 def history_options(root: Path, proj: dict) -> dict:
     """options of one project: its own output root; `split_out`: the C-family targets get `out: {header, source}`"""
     opts = options_for(root / "out", proj.get("styles", {}))
@@ -497,6 +559,9 @@ def history_options(root: Path, proj: dict) -> dict:
         for t in ("cpp", "jni", "objc", "objcpp", "cppcli"):
             o = opts["generate"][t]["out"]
             opts["generate"][t]["out"] = {"header": o + "/include", "source": o + "/src"}
+    if proj.get("serialization"):
+        # the optional per-declaration outputs are rendered too (C++ `to_string` source); nothing is compiled in this stream
+        opts["generate"]["cpp"]["string_serialization"] = True
     return opts
 
 
@@ -514,7 +579,7 @@ def history_worker(args):
     out = {}
     try:
         api = API()
-        cctx, gctx, version, errors, infos = {}, {}, {}, {}, {}
+        cctx, gctx, version, errors, infos, order0 = {}, {}, {}, {}, {}, {}
         for step in hist["steps"]:
             op, pn = step[0], step[1]
             proj = hist["projects"][pn]
@@ -528,13 +593,14 @@ def history_worker(args):
                 (root / "m.djinni").write_text(render(proj["versions"][version.get(pn, 0)]))
                 gctx[pn] = cctx[pn].parse(root / "m.djinni")
                 errors[pn] = {}
+                order0[pn] = idl_item_order(gctx[pn])
             elif op == "generate":
                 for t in (step[2] if len(step) > 2 else glue.TARGETS):
                     try:
                         gctx[pn].generate(t)
                     except Exception as e:
                         errors[pn][t] = type(e).__name__ + ": " + str(e)[:160]
-                infos[pn] = decl_infos(gctx[pn], errors[pn])
+                infos[pn] = names_in_idl_order(decl_infos(gctx[pn], errors[pn]), order0[pn])
         for pn in hist["projects"]:
             tree = {sub: glue.snapshot(workdir / pn / "out" / sub) for sub in SUBDIRS}
             out[pn] = attach_files({"parse": "ok", "decls": infos.get(pn, []), "tree": tree})
@@ -578,6 +644,14 @@ def history_specs(ctx, programs):
         steps = HISTORY_ORDERS[order]
         base = pool[k % len(pool)]
         decls = base["decls"][: ctx.n(10, 25)]
+        target_order = order in TARGET_ORDERS
+        if target_order:
+            # every deprecation pattern (quick: a rotating half) + a few random declarations
+            dd = deprecation_decls()
+            if ctx.n(0, 1) == 0:
+                off = r.randrange(2)
+                dd = [d for j, d in enumerate(dd) if (j + off) % 2 == 0 or d["kind"] == "enum" and len(d["items"]) == 3]
+            decls = dd + base["decls"][: ctx.n(4, 12)]
         projects = {}
         prev = decls
         for pn in dict.fromkeys(s[1] for s in steps):
@@ -587,7 +661,8 @@ def history_specs(ctx, programs):
                 prev = [edit_decl(r, d)[0] for d in prev] if (projects or versions) else prev
                 versions.append(prev)
             styles = dict(base["styles"]) if (pn == "A" or r.random() < 0.5) else {t: r.choice(STYLES) for t in ("cpp", "java", "objc", "cppcli") if r.random() < 0.6}
-            projects[pn] = {"versions": versions, "styles": styles, "split_out": r.random() < 0.4}
+            projects[pn] = {"versions": versions, "styles": styles, "split_out": r.random() < 0.4,
+                            "serialization": target_order or r.random() < 0.5}
         out.append({"order": order, "steps": steps, "projects": projects})
     return out
 
@@ -872,7 +947,7 @@ def evaluate_programs(ctx, programs, judges=True, regen=None, pre=None):
                     if pre is not None:
                         extra = {"history": restrict_history(pre[pi]["history"], decl["name"]), "project": pre[pi]["project"]}
                         where = (f" — in the output tree of project {pre[pi]['project']} after the history '{pre[pi]['history']['order']}' "
-                                 f"({' / '.join(' '.join(map(str, st[:2])) for st in pre[pi]['history']['steps'])}) on one API object")
+                                 f"({' / '.join(' '.join(map(str, st[:2])) + (' ' + ','.join(st[2]) if len(st) > 2 else '') for st in pre[pi]['history']['steps'])}) on one API object")
                     if pre is not None:      # one stale directory shows in every declaration: three replays per shape are enough
                         seen = ctx.stats.setdefault("history_reported_by_key", {})
                         seen[tag + key] = seen.get(tag + key, 0) + 1
@@ -918,6 +993,7 @@ def run(ctx):
                             "random to length 8), commented/deprecated items incl. every comment-syntax hazard text (backslash runs at line end, before uXXXX, comment closers) on non-final items, identifier styles; distinct = distinct (kind, none/all shape, styled?); "
                             "non-trivial = at least one item; every declaration is observed in cpp, objc, cppcli, java and jni; regeneration stream: distinct = distinct (edit, shape, styled?), "
                             "non-trivial = the edit changes the item list; history stream: every order of HISTORY_ORDERS with 2-3 projects (equal type names, edited item lists, own out roots, "
+                            "half of them with the C++ serialization source rendered; target-order stream: every order of TARGET_ORDERS of the targets of one parse over every pattern of deprecated items, "
                             "plain or split header/source dirs) on one API object, every project's tree judged against its own declarations; distinct = distinct (order, project, shape, styled?, split?)")
     ctx.assumptions += [
         "at most 32 ordinary flags (1u << 32 is outside the model's unbounded naturals; generator uses <= 8 items)",
